@@ -303,11 +303,21 @@ impl ShardSplitter {
     async fn run_cutover(&self, progress: &mut SplitProgress) -> Result<()> {
         let old_shard = &progress.old_shard.clone();
 
-        let split_state = self
-            .metadata
-            .get_split_state(old_shard)
-            .await?
-            .ok_or_else(|| crate::Error::Internal("No split in progress".to_string()))?;
+        let split_state = match self.metadata.get_split_state(old_shard).await? {
+            Some(state) => state,
+            None => {
+                // Re-entry after a crash between `complete_split` below and the caller
+                // recording the Cutover phase: every step is recorded as done, so the
+                // split state can only have been removed by our own `complete_split`.
+                if progress.shard_a_created
+                    && progress.shard_b_created
+                    && progress.old_shard_deactivated
+                {
+                    return Ok(());
+                }
+                return Err(crate::Error::Internal("No split in progress".to_string()));
+            }
+        };
 
         if split_state.new_shards.len() != 2 {
             return Err(crate::Error::Internal(format!(
@@ -347,9 +357,17 @@ impl ShardSplitter {
                 min_time: old_metadata.min_time,
                 max_time: split_ts,
             };
-            self.metadata
+            match self
+                .metadata
                 .update_shard_metadata(&new_shard_a.shard_id, &new_shard_a, 0)
-                .await?;
+                .await
+            {
+                Ok(()) => {}
+                // The id was generated by this split, so "already exists" means a previous
+                // run created it and crashed before the flag below was persisted.
+                Err(crate::Error::StaleGeneration { .. }) => {}
+                Err(e) => return Err(e),
+            }
             progress.shard_a_created = true;
             self.persist_progress(progress).await?;
         }
@@ -368,9 +386,17 @@ impl ShardSplitter {
                 min_time: split_ts,
                 max_time: old_metadata.max_time,
             };
-            self.metadata
+            match self
+                .metadata
                 .update_shard_metadata(&new_shard_b.shard_id, &new_shard_b, 0)
-                .await?;
+                .await
+            {
+                Ok(()) => {}
+                // The id was generated by this split, so "already exists" means a previous
+                // run created it and crashed before the flag below was persisted.
+                Err(crate::Error::StaleGeneration { .. }) => {}
+                Err(e) => return Err(e),
+            }
             progress.shard_b_created = true;
             self.persist_progress(progress).await?;
         }
